@@ -140,6 +140,23 @@ pub fn get_input_list(
     }
 }
 
+/// Obtain a list of sample names, either from a file with one name per line
+/// (anything after the first whitespace on a line is ignored), or as given on
+/// the command line.
+pub fn get_name_list(file_list: &Option<String>, names: &Option<Vec<String>>) -> Vec<String> {
+    match file_list {
+        Some(file) => {
+            let f = File::open(file).expect("Unable to open file_list");
+            let f = BufReader::new(f);
+            f.lines()
+                .map(|line| line.expect("Unable to read line in file_list"))
+                .filter_map(|line| line.split_whitespace().next().map(|s| s.to_string()))
+                .collect()
+        }
+        None => names.clone().unwrap_or_default(),
+    }
+}
+
 /// Checks if any input files are fastq
 pub fn any_fastq(files: &[InputFastx]) -> bool {
     files.iter().any(|file| file.2.is_some())
